@@ -23,11 +23,13 @@ CLAIMS = {
         text='Seeding guard interval is exactly [1, 2^31-2]; abstract interpretation of the loop-free state update (linear forms over '
              'split atoms with the identity x = 2^k*(x>>k) + (x & (2^k-1)), coefficients reduced mod the discovered modulus, plus '
              'unsigned intervals) proves for every state that the next state is 16807*s mod (2^31-1), canonical and overflow-free; the '
-             'returned value is RFC 5170\'s reference scaling expression (expression-tree rule); effect rules for both routines.',
-        design_ref='DESIGN.md section 5 (R-SEEDRANGE, R-PRNG-STEP, R-FPSCALE, R-PRNG-EFFECT) and section 6 C19',
+             'returned value is RFC 5170\'s reference scaling expression (expression-tree rule); a forward error analysis of that '
+             'expression tree (constants from the IR, standard IEEE-754 model) shows result < maxv for every state and every 32-bit maxv and '
+             'equality with the exact floor whenever state*maxv < 2^53; effect rules for both routines.',
+        design_ref='DESIGN.md section 5 (R-SEEDRANGE, R-PRNG-STEP, R-FPSCALE, R-PRNG-EFFECT), section 6 C19, 11.2 (R-FPRANGE)',
         note='Decides seeding range, the recurrence for all 2^31-2 states (congruence proof), the 10,000th-state check value (from the '
-             'proven recurrence and extracted constants) and the shape of the scaling expression; does not decide the floating-point '
-             'rounding claims. A failed proof is turned into a VIOLATION only with a concrete counterexample state on the extracted '
+             'proven recurrence and extracted constants), the shape of the scaling expression and, under the IEEE-754 error model, the '
+             'two rounding claims. A failed proof is turned into a VIOLATION only with a concrete counterexample state on the extracted '
              'expression, otherwise ANALYSIS-BROKEN. ' + BASE,
         technique='guard-interval analysis + abstract interpretation (congruence/linear-form x interval domain) + expression-tree rule'),
     'C01': dict(
